@@ -154,6 +154,18 @@ def engine_case(c: Campaign, spec: dict[str, Any], mode: str, trust: bool, picks
             # what _handle_message does when the filter is due for rotation
             own.reset()
             w.processor._hydrate_deduplicator()
+        elif mode == "retention":
+            # the processor's retention sweep runs while the record is still inside the retention window (its age is set to
+            # 10-94 % of processed_messages_max_age_hours by moving processed_at back, in the format the engine writes)
+            pk = picks[(pi + redeliveries) % len(picks)] if picks else 5
+            # the configured default and three other settings of processed_messages_max_age_hours (the defect this mode was built for
+            # depends on whether the cutoff falls on the record's calendar day, so one window length would leave hours of the day blind)
+            # (one setting per case: a record aged under a long window would be legitimately expired under a shorter one)
+            ma = [float(getattr(w.processor.config, "processed_messages_max_age_hours", 24.0)), 1.0, 6.0, 72.0][(sum(picks) + len(picks)) % 4]
+            frac = (10 + (pk * 9) % 85) / 100.0
+            minutes = max(1, int(ma * 60 * frac))
+            w._harness_sql("UPDATE processed_messages SET processed_at = datetime('now', ?) WHERE message_id = ?", (f"-{minutes} minutes", str(row["id"])))
+            w.store.cleanup_old_processed_messages(max_age_hours=ma)
         elif mode == "restart":
             blob = w.snapshot()
             calls = list(w.handler_calls)
@@ -252,7 +264,7 @@ def shard_engine(prop: str, tier: str, seed: int, n: int) -> dict[str, Any]:
     @hseed(seed)
     @settings(max_examples=n, database=None, deadline=None, derandomize=False, suppress_health_check=list(HealthCheck),
               phases=[Phase.generate], report_multiple_bugs=False)
-    @given(spec_st, st.sampled_from(["same", "rotate", "rehydrate", "restart", "peer", "age"]), st.booleans(), st.lists(st.integers(0, 40), min_size=1, max_size=12),
+    @given(spec_st, st.sampled_from(["same", "rotate", "rehydrate", "restart", "peer", "age", "retention"]), st.booleans(), st.lists(st.integers(0, 40), min_size=1, max_size=12),
            st.one_of(st.just(2000), st.integers(1, 40)))
     def t(spec, mode, trust, picks, cap):
         if mode == "peer" and trust:
@@ -269,7 +281,7 @@ def shard_grid(prop: str, tier: str, seed: int, name: str) -> dict[str, Any]:
     """Every handled message redelivered right after every later step, all four modes, both option values."""
     c = Campaign(prop, tier, seed, LEVEL)
     spec = core_corpus()[name]
-    for mode in ("same", "rotate", "rehydrate", "restart", "peer", "age"):
+    for mode in ("same", "rotate", "rehydrate", "restart", "peer", "age", "retention"):
         for trust in (False, True):
             if mode == "peer" and trust:
                 continue
@@ -301,7 +313,7 @@ def run(c: Campaign, jobs: int) -> None:
         "peer worker + dedup_trust_negative_cache=True is excluded: the option's documentation requires a single writer of processed_messages",
         "SQLite backend only",
     ]
-    for cls in ("mode:rotate", "mode:restart", "mode:peer", "trust:on", "trust:off", "bloom-machine"):
+    for cls in ("mode:rotate", "mode:restart", "mode:peer", "mode:retention", "trust:on", "trust:off", "bloom-machine"):
         if c.classes.get(cls, 0) == 0:
             c.harness_error(f"generator starvation: class {cls} never produced")
 
